@@ -40,6 +40,8 @@ pub struct Analysis {
     pub info: HashMap<usize, Info>,
     /// match expression id -> (variants of the scrutinee's enum, in declaration order)
     pub match_variants: HashMap<usize, Vec<(String, usize)>>,
+    /// (file, start of the declaring identifier) -> type of a loop variable / pattern binder
+    pub decl_ty: HashMap<(usize, usize), T>,
     /// things the model could not type (a seed must have none)
     pub errors: Vec<String>,
 }
@@ -81,6 +83,7 @@ struct An<'a> {
     record: bool,
     info: HashMap<usize, Info>,
     match_variants: HashMap<usize, Vec<(String, usize)>>,
+    decl_ty: HashMap<(usize, usize), T>,
     errors: Vec<String>,
 }
 
@@ -271,6 +274,7 @@ fn filtermap_verdicts(files: &[SrcFile], parsed: &Parsed, world: &World) -> Hash
                 record: false,
                 info: HashMap::new(),
                 match_variants: HashMap::new(),
+                decl_ty: HashMap::new(),
                 errors: vec![],
             };
             let vars = f.params.iter().zip(&fi.params).map(|((n, _), t)| (n.name.clone(), Some(t.clone()))).collect();
@@ -304,6 +308,7 @@ pub fn analyze(files: &[SrcFile], parsed: &Parsed, ctx_vars: &[(&str, T)]) -> An
     let world = world;
     let mut info = HashMap::new();
     let mut match_variants = HashMap::new();
+    let mut decl_ty = HashMap::new();
     for (i, items) in parsed.files.iter().enumerate() {
         for it in items {
             let mut an = An {
@@ -316,6 +321,7 @@ pub fn analyze(files: &[SrcFile], parsed: &Parsed, ctx_vars: &[(&str, T)]) -> An
                 record: false,
                 info: HashMap::new(),
                 match_variants: HashMap::new(),
+                decl_ty: HashMap::new(),
                 errors: vec![],
             };
             match it {
@@ -356,10 +362,11 @@ pub fn analyze(files: &[SrcFile], parsed: &Parsed, ctx_vars: &[(&str, T)]) -> An
             }
             info.extend(an.info);
             match_variants.extend(an.match_variants);
+            decl_ty.extend(an.decl_ty);
             errors.extend(an.errors);
         }
     }
-    Analysis { world, info, match_variants, errors }
+    Analysis { world, info, match_variants, decl_ty, errors }
 }
 
 fn diverges_expr(e: &Ex) -> bool {
@@ -859,6 +866,13 @@ impl<'a> An<'a> {
                     self.scopes.pop();
                 }
                 for (i, a) in arms.iter().enumerate() {
+                    if let Some((bs, _)) = &a.binds {
+                        for (seg, (_, t)) in bs.iter().zip(self.arm_binds(a, &variants)) {
+                            if let Some(t) = t {
+                                self.decl_ty.insert((self.file, seg.sp.s), t);
+                            }
+                        }
+                    }
                     self.scopes.push(Scope { vars: self.arm_binds(a, &variants), imports: HashMap::new() });
                     if let Some(g) = &a.guard {
                         self.walk(g, boolc.clone());
@@ -883,6 +897,9 @@ impl<'a> An<'a> {
                     Cl::Exact(T::App(n, a)) if n == "List" && a.len() == 1 => Some(a[0].clone()),
                     _ => None,
                 };
+                if let Some(t) = &el {
+                    self.decl_ty.insert((self.file, v.sp.s), t.clone());
+                }
                 // the loop variable lives in the body's own scope
                 self.scopes.push(Scope { vars: vec![(v.name.clone(), el)], imports: HashMap::new() });
                 self.block_inner(b, &Cl::Exact(T::Unit));
